@@ -69,7 +69,7 @@ theorem roundtrip_nodict_flat (fx : Fixes) (m : Message) (hb : Built m) (hw : Wi
       getGroup (flatTmpl (d :: ts)) (f.full p.fields) = .ok gs ∧ gs.length = es.length ∧
       ∀ (i : Nat) (e : List (Tag × Bytes)), es[i]? = some e → ∃ g : GEntry, gs[i]? = some g ∧
         ∀ t v, latest e t = some v → ∃ tail, alFind g.lookup t = some (TagValue.init t v :: tail) := by
-  obtain ⟨t9, t35, restH, frontT, t10, hbytes, hwm, hbl, provH, provT⟩ := build_wire' m hb hw tv8 f35 h8 h35 bytes m' h hsmall
+  obtain ⟨t9, t35, restH, frontT, t10, hbytes, hwm, hbl, provH, provT, _⟩ := build_wire' m hb hw tv8 f35 h8 h35 bytes m' h hsmall
   obtain ⟨a, b, hna, hnb, hsplit⟩ := tvs_split hb.inv.b m.fields gtag _ hG.hg
   -- names
   let M := es.flatMap (fun e => serEntry (canon (d :: ts) e))
